@@ -90,7 +90,7 @@ REG = {
                 "expression trees (roots of negatives, operands/results beyond the double range, 0**-n, /0, escapes above U+10FFFF, lone surrogates in constants, literals and printed values around "
                 "CPython's 4300-digit limits, empty/heterogeneous sets, capacities 0/-1/2**64); nesting 2..300 of parentheses/braces/unary operators and sums of up to 1500 terms; arbitrary file and "
                 "directory names (dots, signs, blanks, non-ASCII digits, control characters, long names, both extensions) incl. two files of one (name, version); read with read_namespace",
-        "technique": "Lean 4 theorems over the exception funnel as a decision function and over a hazard model of expression evaluation + differential correspondence (the model predicts ok/invalid/hazard for the "
+        "technique": "Lean 4 theorems over the exception funnel as a decision function and over a hazard model of expression evaluation; totality of file-name parsing proved over Lean definitions translated from the working tree on every run (py2lean_filename: Gen.FileName, Props.C13Gen) + differential correspondence (the model predicts ok/invalid/hazard for the "
                      "modelled expressions) + the exception class as oracle",
         "level_text": "Proved in Lean 4 for the model: the funnel (parse: Error passes, ParseError -> syntax error, VisitationError -> InternalError; read/_read_definitions: Error passes with path, anything else -> "
                       "InternalError) surfaces an inner invalid outcome as invalid with the path and lets nothing but MemoryError/SystemError through as foreign; an expression inside the bounds (literals within "
